@@ -793,7 +793,8 @@ Definition o_merge (a : sx) : sx :=
    expected reply of every request is determined by the request alone. *)
 Definition find_sub (s sub : bytes) : bool := Cluster.contains s sub.
 
-Definition conv_value (k : bytes) : bytes := enc_bulk (bs "V(" ++ k ++ bs ")").
+Definition conv_value (k : bytes) : bytes :=
+  enc_bulk (bs "V(" ++ k ++ bs ")" ++ if find_sub k (bs "big") then repeat 120 30 else []).
 
 (* what the client must receive for request args, by the convention, if no fault interferes *)
 Definition expected_reply (limit : Z) (password : bytes) (args : list bytes) : option bytes :=
@@ -968,6 +969,38 @@ Fixpoint scan_leaves_requests (prev_tasks : bool) (evs obs : list sx) : bool :=
   | _, _ => false
   end.
 
+(* C09 / C13: at the end of the event that delivers bytes to a backend connection, every reply that
+   has arrived completely has been taken off the wire: the replies delivered so far (whole ones) plus
+   the fragments still awaiting a reply never exceed the requests written to that connection *)
+Fixpoint reply_left_unprocessed (evs obs : list sx) (delivered : list (bytes * Z * bytes)) : option sx :=
+  match evs, obs with
+  | e :: evs', o :: obs' =>
+      match e with
+      | SL [SN 3%Z; SB a; SN k; SB b] =>
+          let same (d : bytes * Z * bytes) := (beqb (fst (fst d)) a && Z.eqb (snd (fst d)) k)%bool in
+          let sofar := match find same delivered with Some d => snd d ++ b | None => b end in
+          let delivered' := (a, k, sofar) :: filter (fun d => negb (same d)) delivered in
+          let bad_conn (sv : sx) : bool :=
+            match sv with
+            | SL [SB addr; SN k'; SN op; SN inq; _; SB got] =>
+                if (beqb addr a && Z.eqb k' k && negb (Z.eqb op 0))%bool then
+                  let whole := length (fst (split_replies (S (length sofar)) sofar)) in
+                  let written := length (all_requests (S (length got)) got) in
+                  ((whole <=? written)%nat && (written <? whole + Z.to_nat inq)%nat)%bool
+                else false
+            | _ => false
+            end in
+          match o with
+          | SL [_; SL ss] =>
+              if existsb bad_conn ss then Some (viol "backend-reply-received-but-not-processed" [SB a; SN k])
+              else reply_left_unprocessed evs' obs' delivered'
+          | _ => reply_left_unprocessed evs' obs' delivered'
+          end
+      | _ => reply_left_unprocessed evs' obs' delivered
+      end
+  | _, _ => None
+  end.
+
 Definition o_loop (a : sx) : sx :=
   match a with
   | SL [SL [SL (SN limit :: SB pw :: SN tmo :: _); _; SL ranges; SL evs]; SL obs] =>
@@ -1027,7 +1060,11 @@ Definition o_loop (a : sx) : sx :=
                 end in
               match find (fun r => negb (sx_eqb r ok)) (map server_check ss) with
               | Some v => v
-              | None => ok
+              | None =>
+                  match (if Nat.eqb (length evs) (length obs) then reply_left_unprocessed evs obs [] else None) with
+                  | Some v => v
+                  | None => ok
+                  end
               end
           end
       | SL [SB tag] => viol "event-loop-stopped" [SB tag]
